@@ -2887,18 +2887,10 @@ let fill_of_cty = function
   VI (Zneg (XI (XI (XI (XI (XI (XI (XI (XI (XI (XI (XI (XI (XI (XI (XI (XI
     (XI (XI (XI (XI (XI (XI (XI (XI (XI (XI (XI (XI (XI (XI
     XH)))))))))))))))))))))))))))))))
-| Uint ->
-  VI (Zpos (XI (XI (XI (XI (XI (XI (XI (XI (XI (XI (XI (XI (XI (XI (XI (XI
-    (XI (XI (XI (XI (XI (XI (XI (XI (XI (XI (XI (XI (XI (XI (XI
-    XH))))))))))))))))))))))))))))))))
 | Long ->
   VI (Zneg (XI (XI (XI (XI (XI (XI (XI (XI (XI (XI (XI (XI (XI (XI (XI (XI
     (XI (XI (XI (XI (XI (XI (XI (XI (XI (XI (XI (XI (XI (XI
     XH)))))))))))))))))))))))))))))))
-| Ulong ->
-  VI (Zpos (XI (XI (XI (XI (XI (XI (XI (XI (XI (XI (XI (XI (XI (XI (XI (XI
-    (XI (XI (XI (XI (XI (XI (XI (XI (XI (XI (XI (XI (XI (XI (XI
-    XH))))))))))))))))))))))))))))))))
 | Longlong ->
   VI (Zneg (XO (XI (XI (XI (XI (XI (XI (XI (XI (XI (XI (XI (XI (XI (XI (XI
     (XI (XI (XI (XI (XI (XI (XI (XI (XI (XI (XI (XI (XI (XI (XI (XI (XI (XI
@@ -2911,10 +2903,20 @@ let fill_of_cty = function
     (XI (XI (XI (XI (XI (XI (XI (XI (XI (XI (XI (XI (XI (XI (XI (XI (XI (XI
     (XI (XI (XI (XI (XI (XI (XI (XI (XI (XI (XI
     XH))))))))))))))))))))))))))))))))))))))))))))))))))))))))))))))))
-| _ ->
+| Float ->
   VF (false, (Zpos (XO (XO (XO (XO (XO (XO (XO (XO (XO (XO (XO (XO (XO (XO
     (XO (XO (XO (XO (XO (XO (XI (XI (XI XH)))))))))))))))))))))))), (Zpos (XI
     (XI (XO (XO (XO (XI XH))))))))
+| Double ->
+  VF (false, (Zpos (XO (XO (XO (XO (XO (XO (XO (XO (XO (XO (XO (XO (XO (XO
+    (XO (XO (XO (XO (XO (XO (XO (XO (XO (XO (XO (XO (XO (XO (XO (XO (XO (XO
+    (XO (XO (XO (XO (XO (XO (XO (XO (XO (XO (XO (XO (XO (XO (XO (XO (XO (XI
+    (XI (XI XH))))))))))))))))))))))))))))))))))))))))))))))))))))), (Zpos
+    (XO (XI (XI (XO (XO (XO XH))))))))
+| _ ->
+  VI (Zpos (XI (XI (XI (XI (XI (XI (XI (XI (XI (XI (XI (XI (XI (XI (XI (XI
+    (XI (XI (XI (XI (XI (XI (XI (XI (XI (XI (XI (XI (XI (XI (XI
+    XH))))))))))))))))))))))))))))))))
 
 (** val spec_default_fill : xty -> val0 **)
 
@@ -2935,9 +2937,13 @@ let spec_in_range dst = function
   else (&&) (Z.leb (imin dst) z0) (Z.leb z0 (imax dst))
 | VF (n, m, e) ->
   if is_float dst
-  then (match dy_cmp m e (fmax_m dst) (femax dst) with
-        | Gt -> false
-        | _ -> true)
+  then (&&)
+         (match dy_cmp (smant n m) e (Z.opp (fmax_m dst)) (femax dst) with
+          | Lt -> false
+          | _ -> true)
+         (match dy_cmp (smant n m) e (fmax_m dst) (femax dst) with
+          | Gt -> false
+          | _ -> true)
   else (&&)
          (match dy_cmp (smant n m) e (imin dst) Z0 with
           | Lt -> false
